@@ -13,7 +13,7 @@ import (
 	"verifharness/internal/val"
 )
 
-var c20Floor = []string{"set", "get", "get.unset", "get.after-set-same-row", "get.before-set-same-row", "set.overwrite", "set.expr", "set.literal", "where", "prepopulated", "queries.2", "queries.3+", "keys.multi", "table.empty", "dual", "prebuilt", "order.projected", "order.unprojected", "grouped", "grouped.having"}
+var c20Floor = []string{"set", "get", "get.unset", "get.after-set-same-row", "get.before-set-same-row", "set.overwrite", "set.expr", "set.literal", "where", "prepopulated", "queries.2", "queries.3+", "keys.multi", "table.empty", "dual", "prebuilt", "order.projected", "order.unprojected", "grouped", "grouped.having", "get.subquery", "opt.callback"}
 
 func init() {
 	fw.Register(&fw.Prop{
@@ -156,6 +156,12 @@ func c20Run(c *fw.Case) {
 				}
 				items = append(items, c20Item{kind: "set", key: k, expr: e})
 			case 2, 3:
+				if c.Chance(0.2) {
+					// the register read inside a select-list scalar subquery: evaluated at its position in the list
+					items = append(items, c20Item{kind: "subget", key: k, alias: fmt.Sprintf("sg%d", i)})
+					feats = append(feats, "get.subquery")
+					continue
+				}
 				items = append(items, c20Item{kind: "get", key: k, alias: fmt.Sprintf("g%d", i)})
 			default:
 				items = append(items, c20Item{kind: "col", col: gen.Pick(c.R, []string{"rid", "n1", "s1"})})
@@ -184,6 +190,8 @@ func c20Run(c *fw.Case) {
 			switch it.kind {
 			case "set":
 				parts[i] = "SETVAR(" + gen.SQLString(it.key, 0) + ", " + gen.RenderExpr(it.expr, ro) + ")"
+			case "subget":
+				parts[i] = "(SELECT GETVAR(" + gen.SQLString(it.key, 0) + ") AS g FROM dual) AS " + it.alias
 			case "get":
 				parts[i] = "GETVAR(" + gen.SQLString(it.key, 0) + ") AS " + it.alias
 			default:
@@ -259,6 +267,14 @@ func c20Run(c *fw.Case) {
 					everSet[it.key] = true
 					setInRow[it.key] = true
 					feats = append(feats, "set")
+				case "subget":
+					v, ok := model[it.key]
+					if !ok {
+						v = nil
+					} else if everSet[it.key] {
+						observedWrite = true
+					}
+					out[it.alias] = map[string]any{"g": v}
 				case "get":
 					v, ok := model[it.key]
 					if !ok {
@@ -291,12 +307,20 @@ func c20Run(c *fw.Case) {
 	// 'prebuilt' - every query of the history is constructed first (all given
 	// the same map) and only then executed in order; evaluation order is the
 	// order of the Exec calls either way
+	// the other per-query options do not take the variables away
+	extraOpts := func() []genql.QueryOption { return nil }
+	if force == "opt.callback" || c.Chance(0.3) {
+		feats = append(feats, "opt.callback")
+		extraOpts = func() []genql.QueryOption {
+			return []genql.QueryOption{genql.CompletedCallback(func() {}), genql.UnReportedErrors(func(error) {}), genql.WithConstants(map[string]any{"c": 1.0})}
+		}
+	}
 	prebuilt := force == "prebuilt" || (force == "" && len(plan) > 1 && c.Chance(0.3))
 	var built []*genql.Query
 	if prebuilt {
 		feats = append(feats, "prebuilt")
 		for qi, st := range plan {
-			q, err := genql.New(val.CopyMap(doc), st.sql, genql.WithVars(vars))
+			q, err := genql.New(val.CopyMap(doc), st.sql, append(extraOpts(), genql.WithVars(vars))...)
 			if err != nil {
 				c.Feature(feats...)
 				c.Violate("error", fmt.Sprintf("query %d of the history could not be constructed: %v", qi, err), map[string]any{"history": history, "doc": doc})
@@ -311,7 +335,7 @@ func c20Run(c *fw.Case) {
 		if prebuilt {
 			o = execBuilt(built[qi])
 		} else {
-			o = Run(val.CopyMap(doc), st.sql, genql.WithVars(vars))
+			o = Run(val.CopyMap(doc), st.sql, append(extraOpts(), genql.WithVars(vars))...)
 		}
 		c.Evals(1)
 		det := map[string]any{"history": history, "doc": doc, "expected_rows": val.Show(want), "observed": o.Describe(), "expected_store": val.Show(model), "observed_store": val.Show(vars)}
